@@ -23,13 +23,14 @@ def views(src, cl, tag, programs, at_change=None):
             app = c.context.applications.get(group)
             proc = app.processes.get(name) if app else None
             reported = sorted(proc.running_identifiers) if proc else []
-            truth = sorted(i for i in running_peers if cl.net.alive.get(i) and ns in cl.net.cores[i]
-                           .supervisor_data.running())
+            # an instance whose Supervisor is stopping the process stays listed until it reports a stopped state
+            truth = sorted(i for i in running_peers if cl.net.alive.get(i) and _state(cl, i, ns) in LISTED)
+            truly_running = any(_state(cl, i, ns) in LISTED[:3] for i in truth)
             sig = tag + (f':observer-saw-actor-{at_change.get(c.ident)}' if at_change else '')
             src.check('reported-location-is-true', reported == truth, sig=sig, instance=c.ident, namespec=ns,
                       reported=reported, truth=truth, sees=states)
             running = bool(proc and proc.running())
-            src.check('running-verdict-is-true', running == bool(truth), sig=sig, instance=c.ident, namespec=ns,
+            src.check('running-verdict-is-true', running == truly_running, sig=sig, instance=c.ident, namespec=ns,
                       state=proc.state if proc else None)
             reports[(c.ident, ns)] = (reported, running, tuple(sorted(running_peers)))
     # agreement between instances with the same set of RUNNING peers
@@ -40,6 +41,14 @@ def views(src, cl, tag, programs, at_change=None):
                              if at_change else '')
                 src.check('instances-agree', r[:2] == r2[:2], sig=sig, namespec=ns, a=(i, r), b=(j, r2))
     src.check('no-internal-error', not cl.criticals(), log=cl.criticals()[:1])
+
+
+LISTED = (PS.STARTING, PS.BACKOFF, PS.RUNNING, PS.STOPPING)
+
+
+def _state(cl, ident, ns):
+    info = cl.net.cores[ident].supervisor_data.table.get(ns)
+    return info['state'] if info else None
 
 
 def _activity(cl, i, ns, what, notes=None):
@@ -64,6 +73,10 @@ def _activity(cl, i, ns, what, notes=None):
         sd.set_state(ns, PS.STOPPED)
     elif what == 'crash' and st in (PS.STARTING, PS.RUNNING):
         sd.set_state(ns, PS.EXITED, expected=False)
+    elif what == 'stop_begin' and st in (PS.STARTING, PS.RUNNING):
+        sd.set_state(ns, PS.STOPPING)
+    elif what == 'stop_end' and st == PS.STOPPING:
+        sd.set_state(ns, PS.STOPPED)
 
 
 @rigged
@@ -177,7 +190,65 @@ def handshake_race(src, n=2, window=60, who=('joiner', 'member')):
     src.obs('tasks', count[0])
 
 
+@rigged
+def overlap(src, n=2, rounds=3, closing=5, delays=1, endings=('stopping', 'stopped')):
+    """H12-overlap: the process is being stopped (slowly) on one instance while it is started on another one - the two
+    Supervisors publish independently, so the observers receive STOPPING(A) and STARTING(B) in either order; the stop
+    then completes, stays in progress, or A is lost before it completes"""
+    programs = {i: [('app', 'p1')] for i in range(n)}
+    cl = Cluster(n, {'synchro_options': 'LIST,TIMEOUT', 'synchro_timeout': '15'}, programs)
+    for r in range(6):
+        cl.round()
+    a = src.pick_int('stopping_instance', 0, n - 1)
+    b = src.pick('starting_instance', [i for i in range(n) if i != a])
+    _activity(cl, a, 'app:p1', 'start')
+    cl.drain()
+    plan = [(src.pick_int('stop_round', 0, rounds - 2), src.pick_int('stop_pos', 0, n - 1), ('stop_begin', a)),
+            (src.pick_int('start_round', 0, rounds - 2), src.pick_int('start_pos', 0, n - 1), ('start', b))]
+    first = src.pick('first', ['stop', 'start'])
+    if first == 'start':
+        plan.reverse()
+    ending = src.pick('ending', list(endings))
+    budget = [delays]
+    counter = [0]
+
+    def hold(task):
+        if budget[0] <= 0 or counter[0] > 400:
+            return False
+        counter[0] += 1
+        if src.pick_flag(f'hold{counter[0]}'):
+            budget[0] -= 1
+            return True
+        return False
+    for r in range(rounds):
+        for pos in range(n):
+            for (pr, pp, (what, i)) in plan:
+                if pr == r and pp == pos:
+                    _activity(cl, i, 'app:p1', what)
+            if r == rounds - 1 and pos == 0:
+                if ending == 'stopped':
+                    _activity(cl, a, 'app:p1', 'stop_end')
+                elif ending == 'lost':
+                    cl.crash(a)
+            c = cl.cores[pos]
+            if cl.net.alive[c.ident]:
+                c.tick()
+                cl.drain(hold)
+    for r in range(closing):
+        cl.round()
+    src.reach('quiescent')
+    if _state(cl, cl.cores[a].ident, 'app:p1') == PS.STOPPING and cl.net.alive[cl.cores[a].ident]:
+        src.reach('still-stopping')
+    views(src, cl, f'overlap:{ending}', ['app:p1'])
+    src.obs('views', {c.ident: sorted(c.context.applications['app'].processes['p1'].running_identifiers)
+                      for c in cl.live()})
+
+
 HARNESSES = [
+    Harness('H12-overlap', overlap, quick={'n': 2}, thorough={'n': 3, 'endings': ('stopping', 'stopped', 'lost'),
+                                                               'delays': 2},
+            reach=('quiescent', 'still-stopping'), timeout=(100, 1200),
+            doc='slow stop on one instance overlapping a start on another one, received in either order'),
     Harness('H12-race', handshake_race, quick={'n': 2}, thorough={'n': 3, 'window': 120},
             reach=('during-handshake',), timeout=(120, 900),
             doc='process state change at every task-level instant of a join handshake'),
